@@ -30,14 +30,65 @@ func vhReset() {
 
 func vhHexId(n int) entity.Id { return entity.Id(fmt.Sprintf("%064x", n)) }
 
-// MarshalJSON (M-PACK write side).
+// vhSameContent: the serialised fields of two versions are equal.
+func vhSameContent(a, b *version) bool {
+	if a.name != b.name || a.email != b.email || a.login != b.login || a.avatarURL != b.avatarURL || a.unixTime != b.unixTime {
+		return false
+	}
+	if len(a.times) != len(b.times) || len(a.metadata) != len(b.metadata) || len(a.keys) != len(b.keys) || len(a.nonce) != len(b.nonce) {
+		return false
+	}
+	for k, v := range a.times {
+		if w, ok := b.times[k]; !ok || w != v {
+			return false
+		}
+	}
+	for k, v := range a.metadata {
+		if w, ok := b.metadata[k]; !ok || w != v {
+			return false
+		}
+	}
+	for k := range a.keys {
+		if a.keys[k] != b.keys[k] {
+			return false
+		}
+	}
+	for k := range a.nonce {
+		if a.nonce[k] != b.nonce[k] {
+			return false
+		}
+	}
+	return true
+}
+
+// MarshalJSON (M-PACK write side): the serialisation is an opaque blob that remembers
+// the version; it is a function of the version's content (a version whose fields changed
+// since it was last serialised gets new bytes, hence a new id).
 func (v *version) MarshalJSON() ([]byte, error) {
 	tok, ok := vhTokens[v]
+	if ok && !vhSameContent(vhVersions[tok], v) {
+		ok = false
+	}
 	if !ok {
 		vhNextTok++
 		tok = fmt.Sprintf("\"vhversion:%d\"", vhNextTok)
 		vhTokens[v] = tok
 		cp := *v
+		cp.metadata = map[string]string{}
+		for k, val := range v.metadata {
+			cp.metadata[k] = val
+		}
+		if v.metadata == nil {
+			cp.metadata = nil
+		}
+		cp.times = map[string]lamport.Time{}
+		for k, val := range v.times {
+			cp.times[k] = val
+		}
+		if v.times == nil {
+			cp.times = nil
+		}
+		cp.keys = append([]*Key(nil), v.keys...)
 		vhVersions[tok] = &cp
 		vreg.BlobIds[tok] = string(vhHexId(0x5000 + vhNextTok))
 	}
@@ -719,4 +770,67 @@ func VH_C06_identity() {
 		rt.Assert(ferr == nil && len(fin.versions) == k+u, "repeated-commit-reaches-the-new-state")
 	}
 	rt.Observe("k", k)
+}
+
+
+// VH_C09_mutate: an identity's id never changes and its history only grows, through the
+// editing API: a new identity goes through K steps out of {ask for its id, SetMetadata,
+// Mutate (rename), Commit}; whenever the id has been observed it stays the same, committed
+// versions are never altered, and after a commit the identity reads back under that id
+// with all its versions.
+func VH_C09_mutate() {
+	vhReset()
+	r := vrepo.New()
+	i, err := NewIdentityFull(r, "n0", "e@example.org", "", "", nil)
+	rt.Assert(err == nil, "new-identity")
+	if err != nil {
+		return
+	}
+	var seen entity.Id
+	var committed []entity.Id // ids of the versions stored so far
+	steps := rt.Param("K", 4)
+	for s := 0; s < steps; s++ {
+		switch rt.Choose(4) {
+		case 0:
+			id := i.Id()
+			if seen != "" {
+				rt.Assert(id == seen, "identity-id-never-changes")
+			}
+			seen = id
+			rt.Cover("id-observed")
+		case 1:
+			i.SetMetadata(fmt.Sprintf("k%d", s), "v")
+			rt.Cover("set-metadata")
+		case 2:
+			name := fmt.Sprintf("n%d", s+1)
+			rt.Assert(i.Mutate(r, func(m *Mutator) { m.Name = name }) == nil, "mutate")
+			rt.Cover("mutate")
+		default:
+			if !i.NeedCommit() {
+				continue
+			}
+			rt.Assert(i.Commit(r) == nil, "commit-valid-identity")
+			id := i.Id()
+			if seen != "" {
+				rt.Assert(id == seen, "identity-id-never-changes")
+			}
+			seen = id
+			back, rerr := ReadLocal(r, id)
+			rt.Assert(rerr == nil, "committed-identity-reads-back-under-its-id")
+			if rerr == nil {
+				rt.Assert(len(back.versions) >= len(committed), "history-only-grows")
+				for k, vid := range committed {
+					if k < len(back.versions) {
+						rt.Assert(back.versions[k].Id() == vid, "committed-versions-never-change")
+					}
+				}
+				committed = committed[:0]
+				for _, v := range back.versions {
+					committed = append(committed, v.Id())
+				}
+			}
+			rt.Cover("commit")
+		}
+	}
+	rt.Observe("versions", len(i.versions))
 }
